@@ -267,7 +267,7 @@ def run(ctx):
     if not exe:
         ctx.tie_broken("extraction-frames", log)
         return
-    n = 140 if ctx.quick else 3000
+    n = 140 if ctx.quick else 1100
     with cf.ThreadPoolExecutor(max_workers=12) as ex:
         results = list(ex.map(one, [(ctx.seed, i) for i in range(n)] + [(ctx.seed, 1000000 + i) for i in range(n // 2)]))
     # 1. exact bookkeeping correspondence (model replay of the traced op sequences)
